@@ -203,6 +203,37 @@ def rule_guards(ck):
         (o.ok() if ok else o.fail('NaN statistics of empty synthetic catalogs are not removed from the distribution handed to get_quantiles'))
 
 
+def rule_first_difference(ck):
+    """numpy.diff(x)[0] needs at least two elements: a region with a single (open-ended) magnitude bin is a legal
+    space-magnitude region."""
+    P = ck.prog
+    ck.clause('D3')
+    n = 0
+    for name in ('resampled_magnitude_test', 'MLL_magnitude_test', 'magnitude_test'):
+        f = P.func(CE + name)
+        for x in all_nodes(f):
+            if isinstance(x, ast.Subscript) and isinstance(x.value, ast.Call) and callee(P, f, x.value) == 'numpy.diff' and const_value(x.slice) in (0, -1):
+                n += 1
+                o = ck.ob('C10-D3.halfbin', f, x, x)
+                arg = u(x.value.args[0]) if x.value.args else ''
+                ok = False
+                for p in parents(x):
+                    if isinstance(p, ast.IfExp) and x in list(ast.walk(p.body)):
+                        t = u(p.test)
+                        if 'len(' in t and ('> 1' in t or '>= 2' in t):
+                            ok = True
+                    if isinstance(p, ast.stmt):
+                        for t, pol in guards_of(p, f.node):
+                            tt = u(t)
+                            if pol and 'len(' in tt and ('> 1' in tt or '>= 2' in tt):
+                                ok = True
+                        break
+                (o.ok('guarded by a length test') if ok else
+                 o.fail('`%s` takes the first difference of the magnitude edges without checking that there are two: a region with one '
+                        '(open-ended) magnitude bin raises IndexError' % u(x)))
+    ck.extra['first_difference_sites'] = n
+
+
 def rule_formulas(ck):
     P = ck.prog
     ck.clause('D4')
@@ -387,4 +418,4 @@ def rule_classes(ck):
         (o.ok() if ok else o.fail('%s does not make sure the forecast\'s expected rates exist' % name))
 
 
-RULES = [rule_status, rule_undersampling, rule_guards, rule_formulas, rule_classes]
+RULES = [rule_status, rule_undersampling, rule_guards, rule_first_difference, rule_formulas, rule_classes]
